@@ -835,6 +835,44 @@ def ob_solvers(cfg, seed):
     return Verdict(DISCHARGED, backend="native", detail=f"worst {worst:.1e}")
 
 
+def ob_spectral_flag(law, n):
+    """the spectral (default) local solve with a rate law of exponent n: every point it reports as converged satisfies the visco-plastic consistency condition
+    f(sigma, R(p)) == inverse(dp / dt) and agrees with the local Newton there; a point it gave up on must not be reported as converged"""
+    from EasyFEA import Models
+    from EasyFEA.FEM._linalg import FeArray
+    InE = Models.InElastic
+    SY, H, DT = 250.0, 2000.0, 1.0
+    surface = InE.Yield.VonMises(SY)
+    rate = (InE.ViscoPlastic.Norton(1e-2, n, SY) if law == "Norton" else InE.ViscoPlastic.Perzyna(100.0, n, SY))
+    rng = np.random.default_rng(5)
+    eps = np.array([3e-3, -5e-4, -5e-4, 1e-4, -2e-4, 3e-4])[None, None] * rng.uniform(0.6, 1.6, size=(2, 3, 1))
+    out = {}
+    for solver in ("auto", "newton"):
+        b = InE.Behavior(3, _elastic3(), yieldSurface=surface, hardening=InE.IsotropicHardening.Linear(H), rate=rate, solver=solver)
+        if solver == "auto" and b._Behavior__eigen is None:
+            raise Unsupported("the configuration does not select the spectral path")
+        sig, _, z, ok = b.Integrate(FeArray.asfearray(eps.copy()), dt=DT)
+        p = np.asarray(z)[..., 6]
+        f = np.asarray(surface.f(sig, H * FeArray.asfearray(p)))
+        out[solver] = (np.asarray(sig), p, f - np.asarray(rate.inverse(p / DT)), np.asarray(ok, dtype=bool))
+    sig1, p1, r1, ok1 = out["auto"]
+    sig2, p2, r2, ok2 = out["newton"]
+    if not (p2 > 0).any():
+        raise Unsupported("no flowing point")
+    bad = ok1 & (np.abs(r1) > 1e-6 * SY)
+    if bad.any():
+        e, q = np.argwhere(bad)[0]
+        raise Refuted(f"{law} n={n}: the spectral local solve reports point ({e},{q}) as converged with a consistency residual f - inverse(dp/dt) = {r1[e, q]:.3e} "
+                      f"(p = {p1[e, q]:.3e}; the local Newton finds p = {p2[e, q]:.3e} with residual {r2[e, q]:.1e})", cex=dict(law=law, n=n, strain=eps[e, q].tolist(), dt=DT),
+                      signature=f"spectral:flag:{law}", replay=dict(confirmed=True, residual=float(r1[e, q]), p_spectral=float(p1[e, q]), p_newton=float(p2[e, q])))
+    both = ok1 & ok2
+    if both.any():
+        es = float(np.abs(sig1 - sig2)[both].max() / SY)
+        if es > 1e-6:
+            raise Refuted(f"{law} n={n}: spectral return and local Newton both report convergence and differ by {es:.3e} sigma_y", signature=f"spectral:agree:{law}", replay=dict(confirmed=True, stress=es))
+    return Verdict(DISCHARGED, backend="native", detail=f"converged spectral {int(ok1.sum())}/{ok1.size}, newton {int(ok2.sum())}/{ok2.size}")
+
+
 def ob_elastic(dim, planeStress):
     from EasyFEA import Models
     from EasyFEA.FEM._linalg import FeArray
@@ -1054,6 +1092,9 @@ def build(tier, seed):
                 dict(surface="VonMises", hardening="Linear", dim=2, planeStress=True), dict(surface="Hill", hardening="Voce", dim=2), dict(surface="VonMises", hardening="Linear", rate="Norton")]:
         obs.append(Ob(f"C19.solvers.{cfg_name(cfg)}", ob_solvers, (cfg, seed + 1), "X", ("EasyFEA/Models/InElastic/_spectral.py::Solve", f"{BEH}::Behavior.__Flow"), bound="12 seeded strain paths",
                       clause="spectral return == local Newton (stress 1e-6 sigma_y, state 1e-9)", timeout=1800))
+    for law, n in (("Norton", 1.0), ("Norton", 3.0), ("Norton", 5.0), ("Norton", 8.0), ("Perzyna", 6.0)):
+        obs.append(Ob(f"C19.solvers.flag.{law}.n{int(n)}", ob_spectral_flag, (law, n), "X", ("EasyFEA/Models/InElastic/_spectral.py::Solve", f"{BEH}::Behavior.__Spectral"), bound="6 strain states, one step",
+                      clause="a point the spectral solve reports as converged satisfies f == inverse(dp/dt) (1e-6 sigma_y) and agrees with the local Newton", timeout=600))
     for dim, ps in ((3, False), (2, False), (2, True)):
         obs.append(Ob(f"C19.elastic.{dim}d{'.ps' if ps else ''}", ob_elastic, (dim, ps), "X", (f"{BEH}::Behavior.Integrate",), bound="4 strain states x 12 points", clause="no internal variables: sigma == C:eps, tangent == C of Models.Elastic"))
     for cfg in (dict(surface="VonMises", hardening="Linear", dim=2), dict(surface="VonMises", hardening="Voce", kinematic="AF", rate="Norton", dim=2, planeStress=True)):
